@@ -107,7 +107,7 @@ theorem single_live_worker (hr : Reachable s) (i i') : (s.w i).key = (s.w i').ke
     (s.w i).cancelled = false → (s.w i').cancelled = false → i = i'
 -/
 def twoLive : List Action :=
-  [.m (.spawnPath 5), .t 0 .peek, .t 0 .ensure, .m (.stop 5), .m (.spawnPath 5), .t 1 .peek, .t 1 .ensure]
+  [.m (.spawnPath 5), .t 0 (.peek false), .t 0 .ensure, .m (.stop 5), .m (.spawnPath 5), .t 1 (.peek false), .t 1 .ensure]
 
 theorem single_live_worker_witness :
     ¬ (∀ s, Reachable s → ∀ i i', i < s.nW → i' < s.nW → (s.w i).key = (s.w i').key →
@@ -258,8 +258,8 @@ theorem handle_reports_error_after_exit {s : State} (hr : Reachable s) (i j : Na
 /-- two concurrent first requests for pair 5: caller 0 inserts, caller 1 finds the entry; both register while
 the single worker is fetching -/
 def demo : List Action :=
-  [.m (.spawnPath 5), .m (.spawnPath 5), .t 0 .peek, .t 1 .peek, .t 0 .ensure, .t 1 .ensure,
-   .w 0 .upgradeStart, .t 0 .loadActive, .t 0 .lockCheck, .w 0 .setOngoing, .t 1 .loadActive, .t 1 .lockCheck]
+  [.m (.spawnPath 5), .m (.spawnPath 5), .t 0 (.peek false), .t 1 (.peek false), .t 0 .ensure, .t 1 .ensure,
+   .w 0 .upgradeStart, .t 0 (.loadActive false), .t 0 .lockCheck, .w 0 .setOngoing, .t 1 (.loadActive false), .t 1 .lockCheck]
 
 example : ((run State.init demo).t 0).pc = .waiting 0 ∧ ((run State.init demo).t 1).pc = .waiting 0 ∧
     (run State.init demo).nW = 1 ∧ ((run State.init demo).w 0).pc = .fetching := by decide +kernel
@@ -267,7 +267,7 @@ example : ((run State.init demo).t 0).pc = .waiting 0 ∧ ((run State.init demo)
 /-- … and after the lookup fails and the worker has run, both are released with the error -/
 def demo2 : List Action :=
   demo ++ [.w 0 (.fetchDone .err), .w 0 (.cacheStore .keep), .w 0 .setErr, .w 0 (.publishActive .keep),
-           .w 0 .clearAndNotify, .t 0 .awake, .t 0 .reload, .t 0 .readErr, .t 1 .awake, .t 1 .reload, .t 1 .readErr]
+           .w 0 .clearAndNotify, .t 0 .awake, .t 0 (.reload false), .t 0 .readErr, .t 1 .awake, .t 1 (.reload false), .t 1 .readErr]
 
 example : ((run State.init demo2).t 0).res = some (.err .fetchFailed) ∧
     ((run State.init demo2).t 1).res = some (.err .fetchFailed) := by decide +kernel
@@ -287,7 +287,16 @@ def demo4 : List Action :=
 example : ((run State.init demo4).w 0).pc = .done ∧ ((run State.init demo4).t 2).pc = .loadActive ∧
     ((run State.init demo4).t 2).h = some 0 := by decide +kernel
 
-example : ((run State.init (demo4 ++ [.t 2 .loadActive, .t 2 .lockCheck, .t 2 .reload, .t 2 .readErr])).t 2).res
+example : ((run State.init (demo4 ++ [.t 2 (.loadActive false), .t 2 .lockCheck, .t 2 (.reload false), .t 2 .readErr])).t 2).res
     = some (.err (.exited .cancelled)) := by decide +kernel
+
+/-- an active path that has outlived its expiry is treated as absent by `path()`: the caller does not wait (the
+flags are clear) and returns the recorded error – here none, i.e. `NoPathsFound` -/
+def demoExp : List Action :=
+  [.m (.spawnPath 5), .t 0 (.peek false), .t 0 .ensure, .w 0 .upgradeStart, .w 0 .setOngoing, .w 0 (.fetchDone .ok),
+   .w 0 (.cacheStore .keep), .w 0 .setErr, .w 0 (.publishActive (.set 7)), .w 0 .clearAndNotify,
+   .m (.spawnPath 5), .t 1 (.peek true), .t 1 .ensure, .t 1 (.loadActive true), .t 1 .readErr]
+
+example : ((run State.init demoExp).t 1).res = some (.err .noPaths) := by decide +kernel
 
 end ScionVerif.Sched
